@@ -105,6 +105,11 @@ Proof.
   split; [now apply zoom_centre_region|]. split; [now apply zoom_offset_pixels_region | now apply zoom_offset_scaled_region].
 Qed.
 
+Lemma zoomed_geometry_negative_window_raises (m : list (list bool)) (sy sx oy ox : R) y0 y1 x0 x1 b :
+  zoom_region m = Ok (y0, y1, x0, x1) -> (y1 - y0) + 2 * b < 0 \/ (x1 - x0) + 2 * b < 0 ->
+  @zoomed_geometry ROps m (sy, sx, oy, ox) b = Raise OtherException.
+Proof. intros EZ. exact (zoomed_geometry_raises m sy sx oy ox y0 y1 x0 x1 EZ b). Qed.
+
 (* ------------------------------------------------------------------ witnesses *)
 (* the odd-kernel hypothesis of pad-then-trim is needed: a 2x2 kernel pads one row / column that the trim does not remove *)
 Lemma even_kernel_pad_trim_not_identity :
